@@ -2,7 +2,7 @@ package cors
 
 // C16 — with debug off, preflight responses disclose nothing beyond what was asked.
 func zzH_C16_api() {
-	s := zzDrawScenario([]int{zzFOrigin, zzFMethod, zzFHeaders, zzFPNA, zzFLists})
+	s := zzDrawScenario([]int{zzFOrigin, zzFMethod, zzFHeaders, zzFPNA, zzFLists, zzFSteps, zzFShortHdrs})
 	zzAssume(!s.debug)
 	q := s.q
 	zzAssume(q.isPreflight())
